@@ -616,13 +616,25 @@ func c11TargetType(c *Ctx, br *callBridge) {
 	// the shift: phi(0,1) controlled by the context flag
 	fixedOK, tailOK := false, false
 	var tailBoundary ssa.Value
-	phi, _ := target.(*ssa.Phi)
+	// candidates: every call the target type can come from (through nested phis, e.g. an element type looked up once
+	// before the loop and selected per argument)
 	var cands []ssa.Value
-	if phi != nil {
-		cands = phi.Edges
-	} else {
-		cands = []ssa.Value{target}
+	seenC := map[ssa.Value]bool{}
+	var collect func(v ssa.Value)
+	collect = func(v ssa.Value) {
+		if v == nil || seenC[v] {
+			return
+		}
+		seenC[v] = true
+		if ph, ok := v.(*ssa.Phi); ok {
+			for _, e := range ph.Edges {
+				collect(e)
+			}
+			return
+		}
+		cands = append(cands, v)
 	}
+	collect(target)
 	for _, e := range cands {
 		call, ok := e.(*ssa.Call)
 		if !ok || !call.Call.IsInvoke() {
@@ -653,15 +665,18 @@ func c11TargetType(c *Ctx, br *callBridge) {
 					}
 				}
 			}
-			// the tail branch is guarded by variadic && i >= boundary
-			blk := call.Block()
-			for _, p := range blk.Preds {
-				if iff, ok := p.Instrs[len(p.Instrs)-1].(*ssa.If); ok {
-					if bo, ok := iff.Cond.(*ssa.BinOp); ok && bo.Op == token.GEQ && bo.X == idx {
+			// the tail branch is guarded by variadic && i >= boundary (or the fixed branch by !variadic || i < boundary)
+			instrs(h, func(bb *ssa.BasicBlock, ii int, in2 ssa.Instruction) {
+				iff, ok := in2.(*ssa.If)
+				if !ok {
+					return
+				}
+				if bo, ok := iff.Cond.(*ssa.BinOp); ok && (bo.Op == token.GEQ || bo.Op == token.LSS) && bo.X == idx {
+					if _, isLen := bo.Y.(*ssa.Call); !isLen { // not the loop's own `i < len(args)`
 						tailBoundary = bo.Y
 					}
 				}
-			}
+			})
 		}
 	}
 	c.R.Check(rule, "fixed-position", pos, fixedOK, "the target type of a fixed-position argument i must be In(i + <1 if a context is injected else 0>)")
